@@ -1494,6 +1494,10 @@ pub(crate) mod verif_hooks {
         vec![
             ("dart_ffi", f.fmt_primitive_as_ffi(p, false).to_string()),
             ("dart_cast", f.fmt_primitive_as_ffi(p, true).to_string()),
+            (
+                "dart_slice",
+                f.fmt_slice_type(&hir::Slice::Primitive(None, p)).to_string(),
+            ),
         ]
     }
 }
